@@ -2654,6 +2654,22 @@ theorem exec_hilite (ctx : Lscr.Ctx) (a : Int) (st : PState) (x : Node) (l : Lis
   rw [addModifiers_ok (.unary (S "field") a x) { st with stack := l ++ rest } a l hl hn rest rfl]
   simp only [PState.addStmt]
 
+/-- opcode 60: `set the <movie property> = v` (F150 repaired: the declared properties of the script are not consulted) -/
+theorem exec_setmovie (ctx : Lscr.Ctx) (i : Nat) (v : Spec.Name) (hn : ctx.names[i]? = some v) (a : Int) (st : PState)
+    (r : Node) (rest : List Node) (hs : st.stack = r :: rest) :
+    ∃ l, Emb (.movie v) l ∧
+      execI ctx (.op2 0x60 i) a st = .ok { st with stack := rest, stmts := st.stmts ++ [.stmt a (.binary (S "assign") a l r)] } := by
+  have hl : Opcodes.opcodes.lookup 0x60 = some { cls := "AssignValToPropertyOpcode", impl := "AssignValToPropertyOpcode", nbytes := 2, kind := "param1", attrs := [] } := rfl
+  have hk : ¬ ("param1" = "bi" ∨ "param1" = "tri") := by decide
+  simp only [execI, hl, hk, if_false]
+  unfold process1
+  simp only [nameAt, pyGet_some _ _ _ hn, PState.pop, hs, PState.addStmt, assignNode, Bind.bind, Except.bind, pure, Except.pure]
+  cases hd : dictGet Gen.PropTables.knownPropertiesAssign v with
+  | ok o =>
+    obtain ⟨kv, hkv, rfl⟩ := dictGet_mem _ _ _ hd
+    exact ⟨_, Or.inr ⟨a, a, _, rfl, knownAssign_owner kv hkv⟩, rfl⟩
+  | error e => exact ⟨_, Or.inl ⟨a, rfl⟩, rfl⟩
+
 /-- the statement node carries the address of an instruction of its own code -/
 def StmtIn (a len : Nat) (n : Node) : Prop := ∃ p c, n = .stmt p c ∧ (a : Int) ≤ p ∧ p < ((a + len : Nat) : Int)
 
@@ -3755,6 +3771,31 @@ theorem stmt_lemma (s : Stmt) (hf : FragS s = true) (c : Spec.Ctx) (hT : c.inTel
         rw [hr1]
         simp only [Except.bind]
         rw [runIs_single, exec_setoprop ctx i n hnm _ _ nv no st.stack rfl]
+      all_goals (intros; contradiction)
+    | movie n =>
+      rw [lowerStmt] at h
+      · simp only [M_bind_ok, M_pure_ok, Prod.mk.injEq] at h
+        obtain ⟨cv, s', hv, code, s'', hset, rfl, rfl⟩ := h
+        obtain ⟨hext, hop, hrun⟩ := stack_lemma v hfv c s0 _ cv hv
+        simp only [lowerSet, M_bind_ok, M_pure_ok, Prod.mk.injEq] at hset
+        obtain ⟨i, s3, hn, c2, s2, hop2, rfl, rfl⟩ := hset
+        obtain ⟨hext2, hget, hlt, _⟩ := nameIdx_ok _ _ _ _ hn
+        obtain ⟨rfl, rfl, hx⟩ := op2c_ok _ _ _ _ _ hop2
+        refine ⟨hext.trans hext2, _, rfl, ?_, ?_⟩
+        · intro i hi
+          rcases List.mem_append.mp hi with hi | hi
+          · exact hop i hi
+          · simp only [List.mem_singleton] at hi; subst hi; simp [Instr.opc]
+        intro sF ctx hF hrel G hG hP a st hb hgv
+        have hnm : ctx.names[i]? = some n := by rw [hrel.names]; exact hF.name hget
+        have hG' : ∀ g ∈ v.vars .glob, g ∈ G := fun g hg => hG g (by simp [Stmt.vars, Expr.vars, hg])
+        obtain ⟨nv, gv1, hemb, hgv1, hr1⟩ := hrun sF ctx (hext2.trans hF) hrel G hG' a st hb hgv
+        obtain ⟨l, hl, hex⟩ := exec_setmovie ctx i n hnm ((a + codeSize cv : Nat) : Int) { st with stack := nv :: st.stack, gvars := gv1 } nv st.stack rfl
+        refine ⟨.stmt ((a + codeSize cv : Nat) : Int) (.binary (S "assign") ((a + codeSize cv : Nat) : Int) l nv),
+          gv1, ⟨_, _, _, nv, rfl, hl, hemb⟩, PlainStmt.bin _ _ _ _ _, stmtIn_last a cv _ _, hgv1, ?_⟩
+        rw [runIs_append, hr1]
+        simp only [Except.bind]
+        rw [runIs_single, hex]
       all_goals (intros; contradiction)
     | _ => simp [FragLv] at hlv
   | call f as =>
